@@ -171,6 +171,20 @@ CONTAINER_WRITERS = {"append", "insert", "extend", "pop", "remove", "clear", "so
                      "setdefault", "popitem", "__setitem__", "__delitem__"}
 
 
+def _class_level_constant(repo, ci, node, name) -> bool:
+    """UPPER_CASE = <literal / tuple of literals / library constant>, stored nowhere else: a constant, not state."""
+    from ..ir import class_constant
+    if not name.replace("_", "").isupper():
+        return False
+    hit = class_constant(repo, ci.name, name)
+    if hit is None:
+        return False
+    v = hit[1]
+    immutable = lambda n: isinstance(n, (ast.Constant, ast.Attribute, ast.Name)) or (
+        isinstance(n, ast.UnaryOp) and immutable(n.operand)) or (isinstance(n, ast.Tuple) and all(immutable(x) for x in n.elts))
+    return immutable(v)
+
+
 def check_state(rep, repo):
     n = 0
     for cname in CLASSES:
@@ -184,6 +198,9 @@ def check_state(rep, repo):
                         rep.chk.ob("STATE-filter", cname, unparse(node)[:80], False,
                                    f"{name} changes what pickle stores / restores", file=repo.modules[ci.module].relpath,
                                    line=node.lineno)
+                    elif _class_level_constant(repo, ci, node, name):
+                        rep.chk.ob("STATE-class-attr", cname, unparse(node)[:80], True,
+                                   "an immutable class-level constant that is never assigned on instances: not state")
                     elif _shadowed_default(repo, ci, node, name):
                         rep.chk.ob("STATE-class-attr", cname, unparse(node)[:80], True,
                                    "an immutable class-level default that every constructed instance overrides with its own attribute")
